@@ -52,7 +52,7 @@ def ij_arcs(quick):
                         yield (sx, sy, rad, a0, m, cw)
 
 
-def arc_geometry(sx, sy, rad, a0, m, cw):
+def arc_geometry(sx, sy, rad, a0, m, cw, aligned=False):
     cx = sx - rad * math.cos(a0)
     cy = sy - rad * math.sin(a0)
     sweep = m * math.pi / 12
@@ -174,11 +174,27 @@ E2E_CFG = dict(prop="C16", monitors=(), regions=[], key_depth=False,
                geo={})
 
 
+def num(v):
+    """Plain decimal text of a float (never an exponent), 12 decimals."""
+    t = ("%.12f" % v).rstrip("0").rstrip(".")
+    return "0" if t in ("-0", "") else t
+
+
 def check_e2e(arc, frac):
     """Arc from its start through the real hook with a radius-1 disc centred on the true arc point at
     fraction frac of the sweep: must be suppressed.  With the disc moved >= 3 mm off the circle: verbatim."""
-    sx, sy, rad, a0, m, cw = arc
-    cx, cy, sweep, sgn, ex, ey = arc_geometry(*arc)
+    sx, sy, rad, a0, m, cw = arc[:6]
+    cx, cy, sweep, sgn, ex, ey = arc_geometry(*arc[:6])
+    if arc[6:] and arc[6]:
+        # exact axis-aligned centre
+        k = round(a0 / (math.pi / 2))
+        cx = sx - rad * (1, 0, -1, 0)[k % 4]
+        cy = sy - rad * (0, 1, 0, -1)[k % 4]
+        # sweeps of 90/180/270/360 degrees: the end point is an exact rotation of the start about the centre
+        vx, vy = sx - cx, sy - cy
+        for _ in range((m // 6) % 4):
+            vx, vy = (vy, -vx) if cw else (-vy, vx)
+        ex, ey = cx + vx, cy + vy
     ang = a0 + sgn * sweep * frac
     px, py = cx + rad * math.cos(ang), cy + rad * math.sin(ang)
     res = []
@@ -190,8 +206,14 @@ def check_e2e(arc, frac):
         cfg = dict(E2E_CFG, geo={"probe": dict(type="CircularRegion", cx=gx, cy=gy, r=1.0)})
         w = World.restore(e2e_world(), cfg)
         w.step(("ADD", "probe", "p"))
-        w.step(("RAW", "G0 X%r Y%r" % (sx, sy)))
-        cmd = "%s X%r Y%r I%r J%r" % ("G2" if cw else "G3", ex, ey, cx - sx, cy - sy)
+        w.step(("RAW", "G0 X%s Y%s" % (num(sx), num(sy))))
+        i, j = cx - sx, cy - sy
+        if arc[6:] and arc[6]:
+            # axis-aligned centre: the zero offset word is left out (a missing I/J word means 0)
+            ij = " ".join(w for w in ("I" + num(i) if i else "", "J" + num(j) if j else "") if w)
+            cmd = "%s X%s Y%s %s" % ("G2" if cw else "G3", num(ex), num(ey), ij)
+        else:
+            cmd = "%s X%s Y%s I%s J%s" % ("G2" if cw else "G3", num(ex), num(ey), num(i), num(j))
         st = w.step(("RAW", cmd))
         f = st.feeds[0]
         if hit and f.fwd:
@@ -229,6 +251,22 @@ def _work(arg):
                 if len(out["viol"]) < 3 or (not is_d2 and len(out["viol"]) < 6):
                     out["viol"].append(dict(msg=msg, input=dict(kind="r", chord=[list(ch[0]), list(ch[1]), ch[2], ch[3]]),
                                             sig="R-form D2" if is_d2 else "R-form other", d2=is_d2))
+    elif kind == "e2e-aligned":
+        n = 0
+        for (sx, sy) in STARTS:
+            for rad in (2.5, 10, 50):
+                for k in range(4):
+                    for m in (6, 12, 18, 24):
+                        for cw in (True, False):
+                            n += 1
+                            if n - 1 < lo or n - 1 >= hi:
+                                continue
+                            arc = (sx, sy, rad, k * math.pi / 2, m, cw, True)
+                            out["n"] += 1
+                            out["multi"] += 1
+                            msg = check_e2e(arc, 0.5)
+                            if msg and len(out["viol"]) < 3:
+                                out["viol"].append(dict(msg=msg, input=dict(kind="e2e", arc=list(arc), frac=0.5), sig=msg[:30]))
     else:
         for idx, arc in enumerate(ij_arcs(quick)):
             if idx < lo or idx >= hi or idx % (9 if quick else 4):
@@ -257,7 +295,8 @@ def enumerate_inputs(ctx):
     for kind, n in (("ij", n_ij), ("r", n_r), ("e2e", n_ij)):
         step = max(1, n // 64)
         tasks += [(kind, q, i, i + step) for i in range(0, n, step)]
-    tot = {"ij": [0, 0], "r": [0, 0], "e2e": [0, 0]}
+    tasks += [("e2e-aligned", q, i, i + 24) for i in range(0, 288, 24)]
+    tot = {"ij": [0, 0], "r": [0, 0], "e2e": [0, 0], "e2e-aligned": [0, 0]}
     viol = []
     d2 = 0
     for t, r in zip(tasks, _ordered(tasks)):
@@ -279,7 +318,7 @@ def enumerate_inputs(ctx):
                          dict(form="R", chord=list(next(iter(chords(q)))))],
                 parts=[dict(name="c16-ij", arcs=tot["ij"][0], multi_segment=tot["ij"][1]),
                        dict(name="c16-r", chords=tot["r"][0], r_form_d2_signature=d2),
-                       dict(name="c16-e2e", hook_runs=tot["e2e"][0])],
+                       dict(name="c16-e2e", hook_runs=tot["e2e"][0], axis_aligned_with_omitted_zero_word=tot["e2e-aligned"][0])],
                 violations=uniq)
 
 
